@@ -195,6 +195,9 @@ def iter_simple(fns, src, nmax, which='next', name=None):
 
 # ----------------------------------------------------------------------------------------------- C04
 def bounded(ex, st, N, nmax):
+    """N <= nmax for unrolled pipelines; no bound at all when the loops are summarised by an (auto-checked) invariant"""
+    if ex.inductive:
+        return
     st.pc.append(ULE(N, bv(nmax)))
 
 
